@@ -8,6 +8,7 @@ out=seeded/RESULTS-wave-$first.txt
 for d in seeded/s*; do
   id=$(basename $d); n=$(echo $id | sed 's/^s0*\([0-9]*\)-.*/\1/')
   [ "$n" -ge "$first" ] && [ "$n" -le "$last" ] || continue
+  if grep -q '"retired"' $d/meta.json; then echo "$id retired (see meta.json)" >> $out; continue; fi
   prop=$(python3 -c "import json;print(json.load(open('$d/meta.json'))['property'])")
   r=$(WALL=${WALL:-14} tools/try_mutant.sh /verif/$d/patch.diff $prop 2>&1 | tail -1)
   echo "$id $r" | cut -c1-400 >> $out
